@@ -941,6 +941,27 @@ pub mod simfs {
     /// payload of the unwinding that stands for the death of the process at a crash point
     pub struct CrashRequest;
 
+    /// registration of a handle that is open for writing (see `World::open_writers`)
+    struct Writer(String);
+    impl Writer {
+        fn open(key: &str) -> Writer {
+            world::with(|w| *w.open_writers.entry(key.to_string()).or_default() += 1);
+            Writer(key.to_string())
+        }
+    }
+    impl Drop for Writer {
+        fn drop(&mut self) {
+            world::try_with(|w| {
+                if let Some(n) = w.open_writers.get_mut(&self.0) {
+                    *n = n.saturating_sub(1);
+                    if *n == 0 {
+                        w.open_writers.remove(&self.0);
+                    }
+                }
+            });
+        }
+    }
+
     /// one open file descriptor of the simulated process
     struct Fd;
     impl Fd {
@@ -964,9 +985,24 @@ pub mod simfs {
         std::panic::panic_any(CrashRequest)
     }
 
+    /// Is this the file-system mutation before which a second instance of a generator runs?
+    pub(crate) fn maybe_intrude() {
+        let plan = world::with(|w| match &w.intruder {
+            Some(p) if !w.intruded && !w.frozen && !w.under_shuttle && w.fs_mutations == p.at => {
+                w.intruded = true;
+                Some(p.clone())
+            }
+            _ => None,
+        });
+        if let Some(p) = plan {
+            crate::sim::run_intruder(p);
+        }
+    }
+
     /// One file-system mutation = one crash point. Returns false when the operation must not be
     /// applied (the process is already gone); crashes before returning when the plan says "before".
     fn gate_op() -> (bool, bool) {
+        maybe_intrude();
         match world::with(|w| w.gate(true, None)) {
             Gate::Go => (true, false),
             Gate::Gone => (false, false),
@@ -1490,6 +1526,7 @@ pub mod simfs {
         /// write position; None = append mode (always the end)
         wpos: Option<usize>,
         _fd: Fd,
+        _writer: Option<Writer>,
     }
 
     pub(crate) fn write_key_of(p: &Path) -> String {
@@ -1553,6 +1590,7 @@ pub mod simfs {
     pub fn write<P: AsRef<Path>, C: AsRef<[u8]>>(p: P, contents: C) -> io::Result<()> {
         let key = write_key_of(p.as_ref());
         let c = contents.as_ref().to_vec();
+        maybe_intrude();
         let gate = world::with(|w| {
             let mut d = Fnv::default();
             d.bytes(&c);
@@ -1757,6 +1795,7 @@ pub mod simfs {
             let io_seed = world::with(|w| w.decide_open(&k));
             Ok(File {
                 _fd: fd,
+                _writer: None,
                 data: d,
                 pos: 0,
                 rng: if io_seed == 0 { None } else { Some(Rng::new(io_seed)) },
@@ -1811,6 +1850,7 @@ pub mod simfs {
             let io_seed = world::with(|w| w.decide_stream(&format!("<write>{}", key), true));
             Ok(File {
                 _fd: fd,
+                _writer: Some(Writer::open(&key)),
                 data: Arc::new(vec![]),
                 pos: 0,
                 rng: None,
@@ -1913,6 +1953,7 @@ pub mod simfs {
             let Some(key) = self.write_key.clone() else {
                 return Err(io::Error::new(io::ErrorKind::PermissionDenied, "file not opened for writing"));
             };
+            maybe_intrude();
             let gate = world::with(|w| {
                 let mut d = Fnv::default();
                 d.bytes(buf);
@@ -1949,6 +1990,7 @@ pub mod simfs {
         pub fn try_clone(&self) -> io::Result<File> {
             Ok(File {
                 _fd: Fd::open()?,
+                _writer: self.write_key.as_deref().map(Writer::open),
                 data: self.data.clone(),
                 pos: self.pos,
                 rng: self.rng.clone(),
@@ -2008,6 +2050,7 @@ pub mod simfs {
                 Ok(n) => n,
                 Err(e) => return Err(e),
             };
+            maybe_intrude();
             let gate = world::with(|w| {
                 let mut d = Fnv::default();
                 d.bytes(&buf[..n]);
